@@ -69,12 +69,13 @@ func genB(t *rapid.T) BScript {
 			v, _ := sig.Decode(s.Signal, b)
 			total += sig.Count(v)
 			totalBytes += len(b)
-			for _, sz := range sig.StandaloneSizes(v) {
-				if sz > maxAlone {
-					maxAlone = sz
+			if s.Sizer == "bytes" {
+				for _, sz := range sig.StandaloneSizes(v) {
+					if sz > maxAlone {
+						maxAlone = sz
+					}
 				}
-			}
-			if s.Signal == sig.Profiles && s.Sizer == "items" {
+			} else if s.Signal == sig.Profiles {
 				if m := sig.MaxSamplesPerProfile(v.(pprofile.Profiles)); m > maxAlone {
 					maxAlone = m
 				}
